@@ -27,3 +27,32 @@ Lemma recv_fifo s :
   | x :: rest => snd (recv s) = Some x /\ rx_queue (fst (recv s)) = rest
   end.
 Proof. unfold recv. destruct (rx_queue s); auto. Qed.
+
+From IsoTp Require Import Proofs.CoopP Proofs.TxP.
+
+(** End to end, one multi-frame message, cooperative schedule: what the sender emits (First Frame,
+    then Consecutive Frames as the peer grants them) is reassembled by a receiver with the
+    mirrored prefix into exactly the payload, delivered once, with no error on either side. *)
+Theorem end_to_end_multi ca cb (Hok : params_ok (c_p ca)) (Htbs : 0 < p_tbs_ns (c_p ca)) fc (Hfc : fc_status fc = FS_CTS)
+    a (Ha : p_tx_dl (c_p ca) <= a) s rid payload extra t mk (Hmk : forall d, f_data (mk d) = d) :
+  zlen (tx_prefix (c_txa ca)) = c_rx_prefix_size cb ->
+  1 <= zlen payload < 2 ^ 32 -> zlen payload <= p_max_frame_size (c_p cb) -> is_single ca (zlen payload) = false ->
+  exists ff s1,
+    start_request ca (s <| active := Some (fresh_req rid payload extra t) |>) (fresh_req rid payload extra t) a = SRDone s1 [] (Some ff) /\
+    let '(cfs, evs, s') := coop ca fc a (2 * Z.to_nat (n_cf ca (zlen payload))) s1 [] [] in
+    evs = [EDone rid true] /\ tx_state s' = TxIdle /\ active s' = None /\
+    forall srx, rx_state srx = RxIdle ->
+      let '(s2, e2) := rx_run cb srx (map f_data (ff :: cfs)) mk in
+      e2 = [] /\ rx_queue s2 = rx_queue srx ++ [payload] /\ rx_state s2 = RxIdle.
+Proof.
+  intros Hpre Hn Hmax Hns.
+  destruct (multi_frame_run ca Hok Htbs fc Hfc a Ha s rid payload extra t Hn Hns) as (ff & s1 & Hsr & Hrun).
+  exists ff, s1. split; [exact Hsr|].
+  destruct (coop ca fc a _ s1 [] []) as [[cfs evs] s']. destruct Hrun as (Hseg & He & Hi & Ha').
+  repeat split; try assumption.
+  intros srx Hidle.
+  pose proof (transfer_reference ca cb mk t Hok Hmk Hpre [payload] srx) as Ht.
+  cbn [map concat] in Ht. rewrite app_nil_r in Ht. rewrite Hseg.
+  destruct (rx_run cb srx (map f_data (seg ca t payload)) mk) as [s2 e2].
+  apply Ht; [|exact Hidle]. constructor; [split; assumption|constructor].
+Qed.
